@@ -468,6 +468,7 @@ def run(rep):
         if f.endswith(".go") or f.endswith(".asm"):
             os.remove(os.path.join(workdir, f))
     oracle_ok = os.path.exists(_oracle())
+    t_phase["built"] = time.monotonic()
 
     findings = []      # (kf_id or None, kind, replay_obj)
     stats = {"programs": 0, "schedule_runs": 0, "proto_scenarios": 0, "proto_runs": 0, "cli_runs": 0,
@@ -499,7 +500,7 @@ def run(rep):
                 handle_case(c, case["go"], case, None, add_finding, stats, distinct)
 
         # ---- 2. protocol scenarios
-        n_proto = 400 if thorough else 80
+        n_proto = 400 if thorough else 60
         hl = run_harness(hbin, ["proto", str(n_proto)])
         ol = run_oracle([l for l in hl if l.startswith("PROTO")])
         pms = {l.split(" ")[1]: l for l in ol if l.startswith("PM ")}
@@ -520,7 +521,7 @@ def run(rep):
 
         t_phase["protocol"] = time.monotonic()
         # ---- 3. generated programs
-        n_prog = 600 if thorough else 90
+        n_prog = 600 if thorough else 75
         gendir = os.path.join(workdir, "gen")
         os.makedirs(gendir, exist_ok=True)
         hl = run_harness(hbin, ["gen", str(n_prog), gendir, "30"], timeout=3000)
